@@ -57,8 +57,46 @@ def runSteps (p2 p3 : Nat) : State → List Step → List String
     let st' := autoescapeOn st s
     s!"R ok S {showState st'}" :: runSteps p2 p3 st' rest
 
+/-- `histr <perm2> <perm3> <reg> P … S <k> <stepr>*k` with `good <tplr>` items: histories over
+summaries with call tables (Model/FinalizeRefs.lean); same answer format as `hist` -/
+def pItemR : OptionT P ItemR := do
+  let k ← pTok
+  if k == "bad" then
+    let n ← pTok
+    pure (.bad n)
+  else if k == "good" then
+    let t ← pTplR
+    pure (.good t)
+  else failure
+
+def pStepR (reg : Registered) : OptionT P Step := do
+  let k ← pTok
+  if k == "A" then
+    let items ← pList pItemR
+    pure (.add (items.map (ItemR.toItem reg)))
+  else if k == "E" then
+    let s ← pList pTok
+    pure (.esc s)
+  else failure
+
+def handleHistR (rest : List String) : String :=
+  match (do
+      let a ← pNat
+      let b ← pNat
+      let reg ← pReg
+      pExpect "P"
+      let ps ← pList pTok
+      pExpect "S"
+      let steps ← pList (pStepR reg)
+      pure (a, b, ps, steps) : OptionT P _).run rest with
+  | (some (p2, p3, ps, steps), []) =>
+    String.intercalate " | " (runSteps p2 p3 (State.init ps) steps)
+  | _ => "bad-request"
+
 def handle (line : String) : String :=
   match tokens line with
+  | "finr" :: rest => handleFinR rest
+  | "histr" :: rest => handleHistR rest
   | "hist" :: rest =>
     match (do
         let a ← pNat
